@@ -45,6 +45,25 @@ CHECKS["C20"] = dict(
     design_ref="3/C20",
 )
 
+CHECKS["C04"] = dict(
+    technique="small-scope exhaustion: all 2^n activity patterns of all small graphs/grids decided on the posted encoding by an independent solver (projection) vs BFS, plus Hypothesis-generated end-to-end find_answer cases",
+    text="For every labelled simple graph on <=4 (thorough 5) vertices, drawn simple/multi graphs up to 7 (9) vertices and every grid shape with h*w <= 11 (16) through the BoolArray2D form, x acyclic x {rank encoding, native atom}, the public function is called once and ALL 2^n patterns are decided on the posted program (read through the public data model) by vlib/refz3 and compared with BFS connectivity / tree-ness: soundness, completeness and 'no other constraint on the caller's variables' at once. Native atoms are evaluated by the reference semantics. End-to-end cases feed the pattern as pinned/negated variables, expressions, constants, list/BoolArray1D/BoolArray2D through find_answer (z3, cspuz_core stand-in). Exhaustive within the scope, sampled beyond.",
+    note="Trusted base: vlib/graphref BFS, vlib/refz3 (self-checked against brute force), z3 as LIA decision procedure. Acyclic mode on simple graphs only. 9/9 sensitivity mutants caught (one design-list mutant, '>= 1 -> == 1' in the non-acyclic branch, turned out to be semantically equivalent and was replaced).",
+    design_ref="3/C04",
+)
+CHECKS["C08"] = dict(
+    technique="small-scope exhaustion of all activity patterns on all small graphs and grid shapes (projection through an independent solver) against the graph definition, three-way on grids",
+    text="ALL 2^n patterns of every labelled simple graph on <=4 (5) vertices, drawn multigraphs up to 7 (8), and every grid shape with h*w <= 12 (16) incl. all 1xN/Nx1, for not_adjacent and not_adjacent_and_not_segmenting, in the specialised grid form and the explicit-graph form, are decided on the posted program and compared with the definition (no edge with both ends active; inactive vertices connected). Exhaustive within the scope.",
+    note="Trusted base: vlib/graphref, vlib/refz3. Empty inactive set counts as connected. 9/9 sensitivity mutants caught; found and fixed the 1xN defect.",
+    design_ref="3/C08",
+)
+CHECKS["C09"] = dict(
+    technique="small-scope exhaustion of all edge subsets of all small multigraphs (projection through an independent solver) against union-find",
+    text="ALL 2^m edge subsets of every loop-free multigraph with n<=4, m<=6 (thorough n<=5) and of drawn multigraphs with n<=6, m<=9 are decided on the posted program and compared with union-find cycle detection (parallel active edges are a cycle); flags also supplied as negated variables / expressions / constants through find_answer. Exhaustive within the scope.",
+    note="Trusted base: vlib/graphref.UF, vlib/refz3. 6/6 sensitivity mutants caught.",
+    design_ref="3/C09",
+)
+
 NOT_BUILT_REASON = "check not built yet in this session (planned in DESIGN.md section 3); not claimed until it runs quietly and is mutation-tested"
 
 def main():
